@@ -21,6 +21,10 @@ VERIF = os.path.dirname(os.path.dirname(os.path.abspath(__file__)))
 sys.path.insert(0, VERIF)
 REPO = os.environ.get("PYVC_REPO", "/repo")
 VENV_PY = "/venv/bin/python"
+# evaluation of seeded changes on a scratch copy (PYVC_REPO=<copy>) writes its evidence / replays elsewhere, so that the
+# committed evidence always comes from /repo itself
+EVID_DIR = os.environ.get("VERIF_EVIDENCE_DIR") or os.path.join(VERIF, "evidence")
+REPLAY_DIR = os.environ.get("VERIF_REPLAY_DIR") or os.path.join(VERIF, "replays")
 
 LEVELS = {}  # pid -> level, filled from MANIFEST
 
@@ -147,7 +151,7 @@ def run_replay(path):
 
 
 def write_replay(pid, viol, script, extra):
-    d = os.path.join(VERIF, "replays", pid)
+    d = os.path.join(REPLAY_DIR, pid)
     os.makedirs(d, exist_ok=True)
     safe = "".join(ch if ch.isalnum() or ch in "._-" else "_" for ch in (viol.get("fn", viol.get("check", "")) + "." + viol.get("obligation", str(viol.get("id", "")))))[:150]
     path = os.path.join(d, safe + ".py")
@@ -168,6 +172,7 @@ def main():
     ap.add_argument("--replay", default=None)
     ap.add_argument("--jobs", type=int, default=min(16, os.cpu_count() or 4))
     ap.add_argument("--only", default=None, help="substring filter on function names (debugging)")
+    ap.add_argument("--no-bounded", action="store_true", help="skip the bounded stand-ins (debugging; implies no evidence file)")
     ap.add_argument("--write-baseline", action="store_true", help="record which obligations discharge on this (unchanged) tree")
     args = ap.parse_args()
     pid = args.pid
@@ -293,8 +298,8 @@ def main():
 
     # bounded stand-ins ---------------------------------------------------------------------------
     bounded_out = []
-    for name, script, qargs, targs in R.BOUNDED.get(pid, []):
-        out_path = os.path.join(VERIF, "evidence", ".bounded_%s_%s.json" % (pid, name))
+    for name, script, qargs, targs in ([] if args.no_bounded else R.BOUNDED.get(pid, [])):
+        out_path = os.path.join(EVID_DIR, ".bounded_%s_%s.json" % (pid, name))
         if os.path.exists(out_path):
             os.unlink(out_path)
         cmd = [VENV_PY, os.path.join(VERIF, script), "--pid", pid, "--tier", args.tier, "--seed", str(seed), "--out", out_path] + (qargs if args.tier == "quick" else targs)
@@ -443,8 +448,9 @@ def main():
         "wall_s": round(time.time() - t0, 2),
         "violations": len(new_viol),
     }
-    os.makedirs(os.path.join(VERIF, "evidence"), exist_ok=True)
-    with open(os.path.join(VERIF, "evidence", pid + ".json"), "w") as f:
+    os.makedirs(EVID_DIR, exist_ok=True)
+    # a partial (debugging) run never replaces the evidence of a full run
+    with open(os.path.join(EVID_DIR, (".partial_" if (args.only or args.no_bounded) else "") + pid + ".json"), "w") as f:
         json.dump(ev, f, indent=1, default=str)
     print("%s: functions=%d obligations=%d discharged=%d violations=%d known=%d undecided=%d wall=%.1fs" % (pid, len(fns), obligations, discharged, len(new_viol), len(known_hit), len(undecided), time.time() - t0))
     sys.exit(exit_code)
